@@ -34,6 +34,8 @@ def run(chk):
     chk.rule("C07.O8", "Potential.force = -gradient(potentialFunction)", 1)
 
     chk.attempt("O1", lambda: builtin_forms(chk, P))
+    chk.rule("C07.O1z", "forms that are regular at r = 0 offer derivatives that are defined at r = 0", 4)
+    chk.attempt("O1z", lambda: regular_at_zero(chk, P))
     chk.attempt("O2", lambda: combinators(chk, P))
     chk.attempt("O2p", lambda: combinators_all_presences(chk, P))
     chk.attempt("G", lambda: W.gradient_obligations(chk, P, rule="C07.G"))
@@ -83,6 +85,54 @@ def builtin_forms(chk, P):
             dcheck(chk, "C07.O1", "%s.%s = d/dr of %s" % (name, d, "__call__" if d == "deriv" else "deriv"), prev, dv,
                    inst.ci.lookup(d).site(), "C07.O1|%s|%s" % (name, d))
             prev = dv
+
+
+def regular_at_zero(chk, P):
+    """forms whose value is defined at r = 0 (no pole there) have their analytic derivatives defined at r = 0 too, equal to the
+    derivative's value there - 'at every separation where it is differentiable', and tables of density functions start at 0"""
+    I = F.make_interp(P)
+    ref_forms, extra_forms = F.all_forms(I, P)
+    zero = Num(ep.const(0))
+
+    def at0(fn, rest):
+        try:
+            return ("ok", I.num(I.call(fn, [zero] + rest, {})))
+        except RaiseSignal as e:
+            return ("raise", e.exc)
+        except (AnalysisError, ep.Unsupported) as e:
+            return ("undecided", str(e))
+    n = 0
+    for name in ref_forms + extra_forms:
+        inst = F.form_instance(I, P, name)
+        params = F.call_params(inst)
+        if isinstance(params, tuple):
+            rest = [Num(ep.sym("c%d" % i)) for i in range(4)]
+            rsym_args = [Num(ep.sym("r"))] + rest
+        else:
+            rest = F.sym_args(params)[1:]
+            rsym_args = F.sym_args(params)
+        v0 = at0(inst, rest)
+        if v0[0] != "ok":
+            continue                      # the form itself has a pole (or is not decided) at r = 0
+        prev = I.num(I.call(inst, rsym_args, {}))
+        for d in ("deriv", "deriv2"):
+            if inst.ci.lookup(d) is None:
+                break
+            try:
+                general = I.num(I.call(I.getattr(inst, d), rsym_args, {}))
+                if not ep.regular_at_zero(general, "r"):
+                    break                 # the derivative itself is singular at 0 (e.g. sqrt): nothing is promised there
+                limit = ep.substitute(general, {"r": ep.const(0)})
+            except (ep.Unsupported, ZeroDivisionError, AnalysisError):
+                break
+            got = at0(I.getattr(inst, d), rest)
+            ok = got[0] == "ok" and ep.equal(got[1], limit)[0]
+            n += 1
+            chk.ob("C07.O1z", "%s is regular at r = 0: %s(0, ...) is defined there and equals the derivative's value" % (name, d), ok,
+                   site=inst.ci.site_of(d), found=got[1] if got[0] != "undecided" else got, expect=limit, key="C07.O1z|%s|%s" % (name, d))
+            prev = general
+    if n < 4:
+        raise AnalysisError("only %d derivative(s) of forms regular at r = 0 were found" % n)
 
 
 def combinators(chk, P):
